@@ -15,11 +15,25 @@ type RenameObject struct {
 
 func (pass *RenameObject) Process(schemas []*ast.Schema) ([]*ast.Schema, error) {
 	visitor := &Visitor{
-		OnObject: pass.processObject,
-		OnRef:    pass.processRef,
+		OnObject:      pass.processObject,
+		OnRef:         pass.processRef,
+		OnConstantRef: pass.processConstantRef,
+		OnDisjunction: pass.processDisjunction,
 	}
 
-	return visitor.VisitSchemas(schemas)
+	newSchemas, err := visitor.VisitSchemas(schemas)
+	if err != nil {
+		return nil, err
+	}
+
+	// the entry point names an object too
+	for _, schema := range newSchemas {
+		if schema.EntryPoint != "" && pass.From.MatchesRef(ast.RefType{ReferredPkg: schema.Package, ReferredType: schema.EntryPoint}) {
+			schema.EntryPoint = pass.To
+		}
+	}
+
+	return newSchemas, nil
 }
 
 func (pass *RenameObject) processObject(visitor *Visitor, schema *ast.Schema, object ast.Object) (ast.Object, error) {
@@ -41,8 +55,36 @@ func (pass *RenameObject) processObject(visitor *Visitor, schema *ast.Schema, ob
 }
 
 func (pass *RenameObject) processRef(_ *Visitor, _ *ast.Schema, def ast.Type) (ast.Type, error) {
-	if def.Ref.ReferredPkg == pass.From.Package && def.Ref.ReferredType == pass.From.Object {
+	if pass.From.MatchesRef(def.AsRef()) {
 		def.Ref.ReferredType = pass.To
+	}
+
+	return def, nil
+}
+
+func (pass *RenameObject) processConstantRef(_ *Visitor, _ *ast.Schema, def ast.Type) (ast.Type, error) {
+	constantRef := def.AsConstantRef()
+	if pass.From.MatchesRef(ast.RefType{ReferredPkg: constantRef.ReferredPkg, ReferredType: constantRef.ReferredType}) {
+		def.ConstantReference.ReferredType = pass.To
+	}
+
+	return def, nil
+}
+
+func (pass *RenameObject) processDisjunction(visitor *Visitor, schema *ast.Schema, def ast.Type) (ast.Type, error) {
+	// discriminator mappings refer to objects of the schema's package by name
+	for discriminator, typeName := range def.Disjunction.DiscriminatorMapping {
+		if pass.From.MatchesRef(ast.RefType{ReferredPkg: schema.Package, ReferredType: typeName}) {
+			def.Disjunction.DiscriminatorMapping[discriminator] = pass.To
+		}
+	}
+
+	var err error
+	for i, branch := range def.Disjunction.Branches {
+		def.Disjunction.Branches[i], err = visitor.VisitType(schema, branch)
+		if err != nil {
+			return ast.Type{}, err
+		}
 	}
 
 	return def, nil
